@@ -187,3 +187,80 @@ func ZZ_C16_Par() {
 		vAssert(len(popped) == 0, "c16.par.canary")
 	}
 }
+
+func init() { vRegister("ZZ_C16_FullAtJump", ZZ_C16_FullAtJump) }
+
+// ZZ_C16_FullAtJump: the queue is driven (sequentially) to its maximum chunk and kept completely full: push until
+// refused, pop j elements (j chosen by the engine, so that for some j the consumer's next pop follows a jump marker),
+// push until refused again. Then one producer (two offers) races with the consumer (two pops). Every accepted element
+// is delivered exactly once in order, nothing accepted is lost, refused elements never appear.
+func ZZ_C16_FullAtJump() {
+	cp := zzCaps[vParam("caps")]
+	q := zzNewAt(cp[0], cp[1], 0)
+	var vals [64]int
+	for i := range vals {
+		vals[i] = i + 1
+	}
+	next := 0
+	var accepted [64]bool
+	var popped []int
+	fill := func() {
+		for next < 40 {
+			if !q.TryPush(&vals[next]) {
+				next++ // a refused element is never offered again
+				return
+			}
+			accepted[next] = true
+			next++
+		}
+	}
+	fill()
+	j := vChoice("popped_before", vParam("maxpop")+1)
+	for i := 0; i < j; i++ {
+		if p := q.TryPop(); p != nil {
+			popped = append(popped, *p)
+		}
+	}
+	fill()
+	base := next
+	prod := func() {
+		for i := 0; i < 2; i++ {
+			if q.TryPush(&vals[base+i]) {
+				accepted[base+i] = true
+			}
+		}
+	}
+	cons := func() {
+		for i := 0; i < 2; i++ {
+			if p := q.TryPop(); p != nil {
+				popped = append(popped, *p)
+			}
+		}
+	}
+	vPar(prod, cons)
+	for n := 0; n < 64; n++ {
+		p := q.TryPop()
+		if p == nil {
+			break
+		}
+		popped = append(popped, *p)
+	}
+	var seen [65]int
+	last := 0
+	for _, v := range popped {
+		vAssert(v >= 1 && v <= 64, "c16.jump.no_invented_element")
+		if v >= 1 && v <= 64 {
+			seen[v]++
+		}
+		vAssert(v > last, "c16.jump.delivered_in_submission_order")
+		last = v
+	}
+	for i := 0; i < 64; i++ {
+		if accepted[i] {
+			vAssert(seen[i+1] == 1, "c16.jump.accepted_delivered_exactly_once")
+		} else {
+			vAssert(seen[i+1] == 0, "c16.jump.refused_never_delivered")
+		}
+	}
+	vAssert(q.Size() == 0 && q.IsEmpty(), "c16.jump.empty_at_quiescence")
+}
